@@ -151,7 +151,7 @@ def rule_execute_string(ctx):
 def rule_nop(ctx):
     prog = ctx.prog
     ctx.analysed("cursor.FakeSnowflakeCursor.execute")
-    PAT = Const("^CALL")
+    PAT = Const("^CALL\\s")  # has a regex escape: folding the case of the *pattern text* would turn \s into \S
     n_match = n_nomatch = 0
     for scenario in (True, False):
         for tr in run_execute(prog, "SELECT", None, nop_regexes=Lst([PAT]), variables={"V": Const("1")},
@@ -167,6 +167,14 @@ def rule_nop(ctx):
                     or PAT.v in tagof(v)
 
             calls = [c for c in tr.hooks.nop_calls if c[1] and from_pat(c[1][0])]
+            folded = [c for c in tr.hooks.nop_calls if c[1] and isinstance(c[1][0], Const) and isinstance(c[1][0].v, str)
+                      and c[1][0].v != PAT.v and c[1][0].v.lower() == PAT.v.lower()]
+            if not calls and folded:
+                ctx.ob("C16.b", "the configured pattern is used as written", False, "fakesnow/cursor.py", folded[0][1][0].v)
+                ctx.violation("C16.b", "cursor", "FakeSnowflakeCursor.execute", "nop pattern case-folded as text", "fakesnow/cursor.py",
+                              f"the configured pattern `{PAT.v}` is matched as `{folded[0][1][0].v}`: changing the case of the pattern text "
+                              f"changes regex escapes (\\s, \\d, \\w, \\b become their negations) — case-insensitivity is the IGNORECASE flag's job")
+                continue
             if not calls:
                 ctx.ob("C16.b", "configured pattern is consulted", False, "fakesnow/cursor.py")
                 ctx.violation("C16.b", "cursor", "FakeSnowflakeCursor.execute", "nop_regexes not consulted", "fakesnow/cursor.py",
